@@ -143,10 +143,10 @@ Case genRandom() {
 
 // exhaustive scope: all ordered pairs of the rectangles of a 4x4 cell grid
 // (10 x-intervals x 10 y-intervals = 100 rectangles), both orientations
-void enumeratePairs(const std::function<void(const Case&)>& f) {
+void enumeratePairsN(int N, const std::function<void(const Case&)>& f) {
   Paths64 rects;
-  for (int x0 = 0; x0 < 5; ++x0) for (int x1 = x0 + 1; x1 < 5; ++x1)
-    for (int y0 = 0; y0 < 5; ++y0) for (int y1 = y0 + 1; y1 < 5; ++y1) {
+  for (int x0 = 0; x0 <= N; ++x0) for (int x1 = x0 + 1; x1 <= N; ++x1)
+    for (int y0 = 0; y0 <= N; ++y0) for (int y1 = y0 + 1; y1 <= N; ++y1) {
       Path64 p = {Point64(x0, y0), Point64(x1, y0), Point64(x1, y1), Point64(x0, y1)};
       rects.push_back(p);
       std::reverse(p.begin(), p.end());
@@ -161,6 +161,9 @@ void enumeratePairs(const std::function<void(const Case&)>& f) {
     }
 }
 
+void enumeratePairs(const std::function<void(const Case&)>& f) { enumeratePairsN(4, f); }
+void enumeratePairs5(const std::function<void(const Case&)>& f) { enumeratePairsN(5, f); }
+
 }  // namespace
 
 int main(int argc, char** argv) {
@@ -168,5 +171,6 @@ int main(int argc, char** argv) {
   H.property = "C02";
   H.parts.push_back({"random", genRandom, judge, nullptr, true});
   H.parts.push_back({"pairs4x4", nullptr, judge, enumeratePairs, false});
+  H.parts.push_back({"pairs5x5", nullptr, judge, enumeratePairs5, false});
   return harnessMain(argc, argv, H);
 }
